@@ -357,6 +357,16 @@ func instrumentPackage(o Options, p *packages.Package, st *Stats, overlay map[st
 				default:
 					fc.insert(n.Select, "verifsimrt.Point(\"select\", 0); ", 0)
 				}
+			case *ast.CallExpr:
+				if sel, ok := n.Fun.(*ast.SelectorExpr); ok && sel.Sel.Name == "Gosched" {
+					if id, ok := sel.X.(*ast.Ident); ok {
+						if pn, ok := p.TypesInfo.Uses[id].(*types.PkgName); ok && pn.Imported().Path() == "runtime" {
+							fc.replace(n.Fun.Pos(), n.Fun.End(), "verifsimrt.Gosched")
+							fc.needRT = true
+							st.ChanOps++
+						}
+					}
+				}
 			case *ast.SendStmt:
 				if skip[n] {
 					return true
